@@ -194,11 +194,11 @@ Proof.
 Qed.
 End Whole.
 
-Lemma groupby_chunk_slow (l : pairs) : l <> [] ->
-  groupby_chunk false (map fst l) (map snd l) = runs l.
+Lemma groupby_chunk_ne_slow (l : pairs) : l <> [] ->
+  groupby_chunk_nonempty false (map fst l) (map snd l) = runs l.
 Proof.
   intros Hne. destruct l as [|p r]; [congruence|].
-  unfold groupby_chunk. cbn [andb].
+  unfold groupby_chunk_nonempty. cbn [andb].
   change (map fst (p :: r)) with (fst p :: map fst r). rewrite get_changes_cons.
   pose proof (cut_runs (p :: r) r [] [p] (fst p)) as H.
   rewrite len_nil in H. change (0 + len [p]) with 1 in H.
@@ -222,15 +222,15 @@ Qed.
 Lemma list_split_last {B} (l : list B) : l <> [] -> exists m z, l = m ++ [z].
 Proof. intros H. destruct (exists_last H) as (m & z & E). eauto. Qed.
 
-Lemma groupby_chunk_true_unfold (keys : list Z) (data : list A) :
-  groupby_chunk true keys data =
-  if nthZ keys 0 =? nthZ keys (len keys - 1) then [(nthZ keys 0, data)] else groupby_chunk false keys data.
+Lemma groupby_chunk_ne_true_unfold (keys : list Z) (data : list A) :
+  groupby_chunk_nonempty true keys data =
+  if nthZ keys 0 =? nthZ keys (len keys - 1) then [(nthZ keys 0, data)] else groupby_chunk_nonempty false keys data.
 Proof. reflexivity. Qed.
 
-Lemma groupby_chunk_fast (l : pairs) P S : l <> [] -> contiguous (P ++ map fst l ++ S) ->
-  groupby_chunk true (map fst l) (map snd l) = runs l.
+Lemma groupby_chunk_ne_fast (l : pairs) P S : l <> [] -> contiguous (P ++ map fst l ++ S) ->
+  groupby_chunk_nonempty true (map fst l) (map snd l) = runs l.
 Proof.
-  intros Hne Hc. rewrite groupby_chunk_true_unfold.
+  intros Hne Hc. rewrite groupby_chunk_ne_true_unfold.
   destruct l as [|p r]; [congruence|].
   assert (H0 : nthZ (map fst (p :: r)) 0 = fst p) by reflexivity.
   destruct r as [|q r'].
@@ -252,36 +252,52 @@ Proof.
         - constructor; [symmetry; exact Heq|constructor]. }
       pose proof (runs_const_app (p :: m ++ [z]) (fst p) [] ltac:(discriminate) Hall I) as Hr.
       rewrite app_nil_r in Hr. rewrite Hr. reflexivity.
-    + apply groupby_chunk_slow. discriminate.
+    + apply groupby_chunk_ne_slow. discriminate.
+Qed.
+
+
+(* with the empty-table case of the current code no chunk needs to be non-empty *)
+Lemma groupby_chunk_cases fast (l : pairs) :
+  groupby_chunk fast (map fst l) (map snd l) = match l with [] => [] | _ => groupby_chunk_nonempty fast (map fst l) (map snd l) end.
+Proof. destruct l as [|p r]; [reflexivity|]. unfold groupby_chunk. unfold len. cbn [map length]. reflexivity. Qed.
+Lemma groupby_chunk_slow (l : pairs) : groupby_chunk false (map fst l) (map snd l) = runs l.
+Proof. rewrite groupby_chunk_cases. destruct l as [|p r]; [reflexivity|]. apply groupby_chunk_ne_slow. discriminate. Qed.
+Lemma groupby_chunk_fast (l : pairs) P S : contiguous (P ++ map fst l ++ S) ->
+  groupby_chunk true (map fst l) (map snd l) = runs l.
+Proof.
+  intros Hc. rewrite groupby_chunk_cases. destruct l as [|p r]; [reflexivity|].
+  apply (groupby_chunk_ne_fast (p :: r) P S); [discriminate|exact Hc].
 Qed.
 
 (* ---------- T5 ---------- *)
+Theorem groupby_chunked_slow_any : forall cs : list pairs, stream_groupby false cs = runs (concat cs).
+Proof.
+  intros cs. unfold stream_groupby. rewrite <- join_runs_chunks. f_equal. f_equal.
+  apply map_ext. intros c. apply groupby_chunk_slow.
+Qed.
 Theorem groupby_chunked_slow : forall cs : list pairs, Forall (fun c => c <> []) cs ->
   stream_groupby false cs = runs (concat cs).
-Proof.
-  intros cs Hne. unfold stream_groupby. rewrite <- join_runs_chunks. f_equal. f_equal.
-  apply map_ext_in. intros c Hc. rewrite Forall_forall in Hne. apply groupby_chunk_slow. exact (Hne c Hc).
-Qed.
+Proof. intros cs _. apply groupby_chunked_slow_any. Qed.
 
-Lemma fast_chunks : forall (cs : list pairs) P, Forall (fun c => c <> []) cs ->
-  contiguous (P ++ map fst (concat cs)) ->
+Lemma fast_chunks : forall (cs : list pairs) P, contiguous (P ++ map fst (concat cs)) ->
   map (fun c => groupby_chunk true (map fst c) (map snd c)) cs = map (@runs A) cs.
 Proof.
-  induction cs as [|c r IH]; intros P Hne Hc; [reflexivity|].
-  inversion Hne as [|? ? Hc1 Hr]; subst. cbn [map]. f_equal.
-  - apply (groupby_chunk_fast c P (map fst (concat r))); [exact Hc1|].
+  induction cs as [|c r IH]; intros P Hc; [reflexivity|]. cbn [map]. f_equal.
+  - apply (groupby_chunk_fast c P (map fst (concat r))).
     cbn [concat] in Hc. rewrite map_app in Hc. exact Hc.
-  - apply (IH (P ++ map fst c)); [exact Hr|].
+  - apply (IH (P ++ map fst c)).
     cbn [concat] in Hc. rewrite map_app in Hc. rewrite <- app_assoc. exact Hc.
 Qed.
 
-Theorem groupby_chunked : forall (fast : bool) (cs : list pairs), Forall (fun c => c <> []) cs ->
-  contiguous (map fst (concat cs)) ->
-  stream_groupby fast cs = runs (concat cs).
+Theorem groupby_chunked_any : forall (fast : bool) (cs : list pairs),
+  contiguous (map fst (concat cs)) -> stream_groupby fast cs = runs (concat cs).
 Proof.
-  intros [|] cs Hne Hc; [|apply groupby_chunked_slow; exact Hne].
-  unfold stream_groupby. rewrite (fast_chunks cs [] Hne Hc). apply join_runs_chunks.
+  intros [|] cs Hc; [|apply groupby_chunked_slow_any].
+  unfold stream_groupby. rewrite (fast_chunks cs [] Hc). apply join_runs_chunks.
 Qed.
+Theorem groupby_chunked : forall (fast : bool) (cs : list pairs), Forall (fun c => c <> []) cs ->
+  contiguous (map fst (concat cs)) -> stream_groupby fast cs = runs (concat cs).
+Proof. intros fast cs _. apply groupby_chunked_any. Qed.
 End GroupBy.
 
 (* sorted keys are contiguous *)
